@@ -12,6 +12,8 @@ import GoaktVerif.Spec.C46
 import GoaktVerif.Lemmas.C46.Interleave
 import GoaktVerif.Lemmas.C46.FanIn
 import GoaktVerif.Lemmas.C46.Hub
+import GoaktVerif.Lemmas.C46.HubCancel
+import GoaktVerif.Lemmas.C46.Zip
 
 namespace GoaktVerif.C46
 open GoaktVerif.Model.C45 (Val Down)
@@ -103,6 +105,41 @@ theorem balance_correct : BalanceClause := by
   rw [hb, List.append_nil] at ho
   rw [← ho]; exact hi
 
+/-- BROADCAST with slot cancellation: a branch is sent every element the hub handles while it is live; once it
+    has cancelled it keeps a prefix (nothing is sent to it any more) -/
+def BroadcastCancelClause : Prop :=
+  ∀ (n : Nat) (evs : List HEv),
+    let r := hubRun .broadcast (hubInit n) evs
+    ∀ i, i < n → (r.1.live.getD i false = true → proj r.2.sent i = r.2.ins) ∧ proj r.2.sent i <+: r.2.ins
+
+theorem broadcast_cancel_correct : BroadcastCancelClause := by
+  intro n evs
+  have h : BcInvC n (hubRun .broadcast (hubInit n) evs).1 (hubRun .broadcast (hubInit n) evs).2 :=
+    bcRunC_inv n (HubSt.init n) {} evs ⟨rfl, fun i _ => ⟨fun _ => rfl, List.prefix_refl _⟩⟩
+  exact h.slots
+
+/-- PARTITION with slot cancellation: a live branch has been sent exactly the handled elements it selects; a
+    cancelled one a prefix of them -/
+def PartitionCancelClause : Prop :=
+  ∀ (n m : Nat) (evs : List HEv), intsOnly evs →
+    let r := hubRun (.partition m) (hubInit n) evs
+    ∀ i, i < n →
+      (r.1.live.getD i false = true → proj r.2.sent i = r.2.ins.filter (fun v => sel m v = i)) ∧
+      proj r.2.sent i <+: r.2.ins.filter (fun v => sel m v = i)
+
+theorem partition_cancel_correct : PartitionCancelClause := by
+  intro n m evs hi
+  have h : PtInvC n m (hubRun (.partition m) (hubInit n) evs).1 (hubRun (.partition m) (hubInit n) evs).2 :=
+    ptRunC_inv n m (HubSt.init n) {} evs ⟨rfl, fun i _ => ⟨fun _ => rfl, List.prefix_refl _⟩⟩ hi
+  exact h.slots
+
+/-- ZIP: see `zip_correct` — positional pairing: the i-th components of the tuples sent, followed by slot i's
+    buffer, are slot i's arrivals in order -/
+def ZipClause : Prop :=
+  ∀ (n : Nat), 0 < n → ∀ (evs : List JEv), zipOK n evs →
+    let r := zipRun n (zipInit n) evs
+    ∀ i, i < n → r.2.sent.filterMap (tupAt i) ++ r.1.bufs.getD i [] = proj r.2.arr i
+
 /-- MERGE: see `merge_correct` -/
 def MergeClause : Prop :=
   ∀ (n : Nat) (evs : List JEv), noWire evs →
@@ -118,13 +155,15 @@ def ConcatClause : Prop :=
     let r := concatRun (concatInit n) evs
     r.2.sent <+: r.2.arr ∧ (r.2.completed = true → r.2.cancelled = false → r.2.sent = r.2.arr)
 
-/-- The full property on the junction actors (Zip is tied by the differential only, see design/C46.md). -/
+/-- The full property on the junction actors. -/
 def C46_full : Prop :=
-  MergeClause ∧ ConcatClause ∧ BroadcastClause ∧ BalanceClause ∧ PartitionClause
+  MergeClause ∧ ConcatClause ∧ BroadcastClause ∧ BalanceClause ∧ PartitionClause ∧
+  BroadcastCancelClause ∧ PartitionCancelClause ∧ ZipClause
 
 theorem C46_holds : C46_full :=
   ⟨fun n evs hw => merge_correct n evs hw, fun n evs hw => concat_correct n evs hw,
-   broadcast_correct, balance_correct, partition_correct⟩
+   broadcast_correct, balance_correct, partition_correct, broadcast_cancel_correct, partition_cancel_correct,
+   fun n hn evs hok => zip_correct n hn evs hok⟩
 
 /-! ### non-vacuity -/
 
@@ -140,5 +179,9 @@ example : (hubRun .balance (hubInit 2) [.elem (.int 5), .slotDemand 1 1, .elem (
       [(1, .int 5), (0, .int 6)] ∧
     (hubRun .balance (hubInit 2) [.elem (.int 5), .slotDemand 1 1, .elem (.int 6), .complete, .slotDemand 0 3]).2.completed = true := by
   decide
+
+/-- Zip: two tuples out of [1,2,3] and [10,20]; the unmatched 3 stays buffered -/
+example : (zipRun 2 (zipInit 2) [.req 5, .value 0 (.int 1), .value 0 (.int 2), .value 1 (.int 10), .value 0 (.int 3),
+      .value 1 (.int 20)]).2.sent = [.list [1, 10], .list [2, 20]] := by decide
 
 end GoaktVerif.C46
